@@ -1,5 +1,117 @@
 (* C08 — every written file is structurally valid TRIPOLI-4 input.
-   Only restatements; proofs are in C08/Proofs.v. *)
-From Coq Require Import List NArith ZArith Bool String Ascii.
-From T4V Require Import Base.Str C08.Model.
+   Only restatements; proofs are in C08/Proofs*.v, definitions in C08/Model.v
+   (what the code does) and C08/Spec.v (what a valid file is; wf_state). *)
+From Coq Require Import List NArith ZArith Bool String Ascii Permutation.
+From T4V Require Import Base.Str C08.Model C08.Spec C08.ProofsSets C08.ProofsWrite C08.ProofsPrune
+     C08.Check C08.ProofsRefute.
 Import ListNotations.
+
+(* VolumeT4.__str__: for EVERY volume (no hypothesis), each declared count equals the
+   number of items printed after it; the items are the sorted, duplicate-free sets *)
+Theorem C08_volume_str_counts : forall (k : Z) (v : volume),
+  let l := volu_line_of k v in
+  declared_ok (vl_plus l) /\ declared_ok (vl_minus l) /\
+  match vl_op l with None => True | Some (_, n, args) => n = N.of_nat (List.length args) end /\
+  items (vl_plus l) = mkset (v_plus v) /\ items (vl_minus l) = mkset (v_minus v) /\
+  op_args l = operands v /\ vl_id l = k /\ vl_fictive l = v_fictive v.
+Proof. exact volume_str_counts. Qed.
+Print Assumptions C08_volume_str_counts.
+
+(* the writers: tables satisfying wf_state are written completely (no exception) as a
+   file satisfying every clause of the property *)
+Theorem C08_write_wf : forall (E : Type) (w : wstate E),
+  wf_state w -> exists f, write_file w = Complete f /\ wf_file f.
+Proof. intros E. exact write_wf. Qed.
+Print Assumptions C08_write_wf.
+
+(* de-duplication + renumbering + remove_empty_volumes + remove_unused_volumes keep the
+   references closed and ESTABLISH "no surface on both sides", provided the union helper
+   planes are still in the surface table afterwards (the guard the code does not check) *)
+Theorem C08_prune_preserves_wf :
+  forall (E : Type) (eeqb : E -> E -> bool) skip_dedup (surfs : stable E) vols u0 u1 surfs' vols',
+  refs_ok surfs vols -> u0 <> u1 -> helpers_survive eeqb skip_dedup surfs u0 u1 ->
+  prune eeqb skip_dedup surfs vols u0 u1 = Ok (surfs', vols') ->
+  refs_ok surfs' vols' /\ sides_ok vols'.
+Proof. intros E. exact (@prune_preserves_wf E). Qed.
+Print Assumptions C08_prune_preserves_wf.
+
+(* remove_empty_volumes terminates within the model's fuel (it never returns None) and
+   its result has closed references and no volume with a surface on both sides *)
+Theorem C08_remove_empty_volumes_ok : forall (E : Type) (surfs : stable E) vols u0 u1,
+  refs_ok surfs vols -> In u0 (keys surfs) -> In u1 (keys surfs) -> u0 <> u1 ->
+  exists vols', remove_empty_volumes vols u0 u1 = Some vols' /\ refs_ok surfs vols' /\ sides_ok vols'.
+Proof. intros E. exact (@remove_empty_volumes_ok E). Qed.
+Print Assumptions C08_remove_empty_volumes_ok.
+
+(* constructGeomCompT4: the groups list exactly the non-virtual volumes, each once *)
+Theorem C08_geomcomp_partition : forall vols cells g,
+  NoDup (keys vols) -> construct_geomcomp vols cells = Ok g ->
+  Permutation (gc_listed g) (live_keys vols) /\
+  (forall k v, In (k, v) vols -> v_fictive v = false -> count_occ Z.eq_dec (gc_listed g) k = 1%nat) /\
+  (forall k, In k (gc_listed g) -> exists v, In (k, v) vols /\ v_fictive v = false) /\
+  Forall (fun l => gc_count l = N.of_nat (List.length (gc_vols l))) g.
+Proof. exact geomcomp_partition. Qed.
+Print Assumptions C08_geomcomp_partition.
+
+(* the boolean verdict the correspondence runs evaluate on the model's file IS the spec *)
+Theorem C08_wf_fileb_ok : forall f, wf_fileb f = true <-> wf_file f.
+Proof. exact wf_fileb_ok. Qed.
+Print Assumptions C08_wf_fileb_ok.
+
+Theorem C08_wf_stateb_sound : forall (E : Type) (w : wstate E), wf_stateb w = true -> wf_state w.
+Proof. intros E. exact wf_stateb_sound. Qed.
+Print Assumptions C08_wf_stateb_sound.
+
+(* ---- refutations: the unguarded statements are false of the faithful model ------------- *)
+(* #7 an operand that is not a number: INTE 1 None *)
+Theorem C08_none_operand_refuted :
+  exists (w : wstate nat) f,
+    write_file w = Complete f /\ ~ wf_file f /\
+    In "VOLU 14 EQUA MINUS 1 1 INTE 1 None ENDV // (10, 1)"%string (print_file f).
+Proof. exact none_operand_refuted. Qed.
+Print Assumptions C08_none_operand_refuted.
+
+(* #8 closed tables, yet the default pipeline dies with KeyError inside the SURF block *)
+Theorem C08_helper_plane_refuted :
+  exists (surfs : stable nat) vols u0 u1,
+    refs_ok surfs vols /\ u0 <> u1 /\ In u0 (keys surfs) /\ In u1 (keys surfs) /\
+    ~ helpers_survive Nat.eqb false surfs u0 u1 /\
+    (exists surfs' vols' sl,
+       prune Nat.eqb false surfs vols u0 u1 = Ok (surfs', vols') /\
+       write_file (w8 surfs' vols') = Died true sl EKey /\
+       print_outcome (Died true sl EKey) =
+         (geometry_head ++ ["SURF 1 PLANEX 1.0"; "SURF 2 PLANEY 0.0"]%string)%list) /\
+    (exists surfs' vols' f,
+       prune Nat.eqb true surfs vols u0 u1 = Ok (surfs', vols') /\
+       write_file (w8 surfs' vols') = Complete f /\ wf_file f).
+Proof. exact helper_plane_refuted. Qed.
+Print Assumptions C08_helper_plane_refuted.
+
+(* #16 GEOMCOMP names a composition that is not written *)
+Theorem C08_leading_zero_refuted :
+  exists (w : wstate nat) f g c,
+    write_file w = Complete f /\ ~ wf_file f /\
+    f_geomcomp f = Some g /\ map gc_name g = ["m01_-1.0"%string] /\
+    f_comps f = Some c /\ map cb_name (snd c) = ["m1_-1.0"; "m0"]%string /\
+    refs_ok (w_surfs w) (w_vols w) /\ sides_ok (w_vols w).
+Proof. exact leading_zero_refuted. Qed.
+Print Assumptions C08_leading_zero_refuted.
+
+(* a boundary condition on a surface the file does not define *)
+Theorem C08_bc_unwritten_surface_refuted :
+  exists (w : wstate nat) f,
+    write_file w = Complete f /\ ~ wf_file f /\
+    f_bc f = Some (1%N, [("REFLECTION"%string, 5%Z)]) /\ surf_ids f = [1%Z] /\
+    refs_ok (w_surfs w) (w_vols w) /\ sides_ok (w_vols w).
+Proof. exact bc_unwritten_surface_refuted. Qed.
+Print Assumptions C08_bc_unwritten_surface_refuted.
+
+(* ---- non-vacuity ------------------------------------------------------------------------ *)
+Example C08_example :
+  refs_ok surfs_ex vols_ex /\ helpers_survive Nat.eqb false surfs_ex 7 8 /\
+  exists surfs' vols' f,
+    prune Nat.eqb false surfs_ex vols_ex 7 8 = Ok (surfs', vols') /\
+    wf_state (w_ex surfs' vols') /\
+    write_file (w_ex surfs' vols') = Complete f /\ wf_file f /\
+    List.length (f_vols f) = 4%nat /\ surf_ids f = [1; 2; 3; 7; 8]%Z.
+Proof. exact example_pipeline. Qed.
